@@ -223,7 +223,8 @@ def explore(prop, tier, seed, workers=None, n_runs=None, budget_s=None, start_in
     t0 = time.time()
     deadline = (t0 + budget_s) if (budget_s and not n_runs) else None
     hard_deadline = t0 + cfg.get("hard_wall_s", 3600 * 6)
-    base = tempfile.mkdtemp(prefix="cxv-")
+    outer = os.environ.get("COXETER_VERIF_SANDBOX")
+    base = outer or tempfile.mkdtemp(prefix="cxv-")
     os.environ["COXETER_VERIF_SANDBOX"] = base
     ctx = multiprocessing.get_context("fork")
     try:
@@ -257,8 +258,9 @@ def explore(prop, tier, seed, workers=None, n_runs=None, budget_s=None, start_in
                     if time.time() < hard_deadline:
                         submit()
     finally:
-        shutil.rmtree(base, ignore_errors=True)
-        os.environ.pop("COXETER_VERIF_SANDBOX", None)
+        if not outer:
+            shutil.rmtree(base, ignore_errors=True)
+            os.environ.pop("COXETER_VERIF_SANDBOX", None)
         global _SANDBOX
         _SANDBOX = None
     total["wall_s"] = time.time() - t0
